@@ -182,7 +182,7 @@ impl WalManager {
     }
 
     /// Truncates a log file to the end of its last valid record.
-    fn truncate_invalid_tail(path: &Path) -> Result<()> {
+    pub(super) fn truncate_invalid_tail(path: &Path) -> Result<()> {
         let Ok(data) = fs::read(path) else {
             return Ok(()); // no such file yet
         };
